@@ -225,6 +225,8 @@ async def checkpoint(label='io'):
 
 async def wait(tasks, timeout=None, return_when=None):
     tasks = list(tasks)
+    if not tasks:
+        raise ValueError('Set of Tasks/Futures is empty.')      # as asyncio.wait does
     for t in tasks:
         if not t.done_:
             await _Suspend('cond', lambda t=t: t.done_, None, 'wait ' + t.name)
